@@ -321,6 +321,32 @@ def check(case):
         affine_checks(t, q, label)
         time_checks(t, q, label, [("generic0", u_gen[0])], [(("generic1", u_gen[1]), ("generic0", ud_gen[0]))])
         partial_checks(t, q, label, [("generic", vgen), (f"e{i}", np.eye(nq)[i])], [("generic0", u_gen[0])], [("generic", la_gen)])
+    # ---- 4. the same joint after a re-assembly that renumbers the coordinates of its subsystems: everything is removed,
+    #         a point mass is registered first, the same objects are registered again and the system is assembled anew
+    try:
+        from cardillo.discrete import PointMass
+
+        tg = t0 + DT
+        g_before = G(tg, qgen)
+        gd_before = GD(tg, qgen, u_gen[0])
+        W_before = WG(tg, qgen)
+        pad = PointMass(1.0, q0=np.array([0.3, -0.2, 0.1]), u0=np.zeros(3), name="verif_pad")
+        system.remove(joint, s2, s1)
+        system.add(pad, s1, s2, joint)
+        J.assemble(system)
+        qn = np.concatenate([np.asarray(pad.q0, float), qgen])
+        un = np.concatenate([np.zeros(3), u_gen[0]])
+        rec.evals += 3
+        for nm, a, b in (("g", G(tg, qn), g_before), ("g_dot", GD(tg, qn, un), gd_before), ("W_g", WG(tg, qn)[3:], W_before)):
+            rec.ncmp += 1
+            e = float(np.max(np.abs(np.asarray(a) - np.asarray(b)))) if np.size(b) else 0.0
+            if np.shape(a) != np.shape(b) or e > 1e-11 * (1.0 + (float(np.max(np.abs(b))) if np.size(b) else 0.0)):
+                rec.fail(f"System.{nm} after re-assembly with renumbered coordinates vs before", f"max difference {e:.3e}", dict(ctx0, state="generic@t0+dt"))
+    except Exception as e:  # noqa
+        info = _repo_origin(e)
+        if info is None:
+            raise
+        rec.fail("re-assembly with renumbered coordinates raises", f"{type(e).__name__}: {e}", dict(info, exc=type(e).__name__))
     rec.stats["n_states"] = 2 + len(jq)
     rec.stats["n_comparisons"] = rec.ncmp
     rec.stats["n_illcond"] = rec.illcond
